@@ -3,7 +3,8 @@ import Ecal.Model.Lexer
 Model of the debugger's command interface: `interpreter/debug_cmd.go` (every command's
 `Run`, `AssertNumParam`, `DebugCommandsMap`) and the command-side methods of
 `interpreter/debug.go` (`HandleInput`, `Continue`, `Describe`, `Status`, `LockState`,
-`ExtractValue`, `InjectValue`, the breakpoint methods), after fix a44f74f.
+`ExtractValue`, `InjectValue`, the breakpoint methods) as of the `fix:` commits listed for C16 in
+known_findings.txt plus fixes/C16-inject-own-thread.patch.
 
 * Strings are Go strings: byte lists. `fields` is `strings.Fields` (rune decoding with
   U+FFFD for invalid bytes, `unicode.IsSpace`), `split` is `strings.Split` on one byte,
@@ -384,6 +385,15 @@ def setInThread (env : Env) (tid : Nat) (varName : Str) (s : DbgState) (is : Int
     modS fun s => { s with istates := put tid { is with locals := varName :: is.locals } s.istates }
     pure false
 
+/-- second phase of the repaired InjectValue, after the evaluation returned without error:
+    under the write lock, set the value if the thread is still suspended -/
+def injectSecond (env : Env) (tid : Nat) (varName : Str) : M Bool :=
+  locked do
+    let s ← getS
+    match s.istates.lookup tid with   -- the thread might have been continued in the meantime
+    | none => pure true
+    | some is => if is.running then pure true else setInThread env tid varName s is
+
 def injectValue (g : Guards) (env : Env) (tid : Nat) (varName expr : Str) : M Bool := do
   let s0 ← getS
   if !s0.globalScope then pure true
@@ -398,11 +408,7 @@ def injectValue (g : Guards) (env : Env) (tid : Nat) (varName expr : Str) : M Bo
     else do
       let ok ← evalExpr (env.eval expr)
       if !ok then pure true
-      else locked do
-        let s ← getS
-        match s.istates.lookup tid with   -- the thread might have been continued in the meantime
-        | none => pure true
-        | some is => if is.running then pure true else setInThread env tid varName s is
+      else injectSecond env tid varName
   else locked do
     -- before the repair: everything under `ed.lock.Lock(); defer ed.lock.Unlock()`
     let s ← getS
@@ -614,6 +620,10 @@ inductive Event where
   | start (tid : Nat)
   /-- SetLockingState / SetThreadPool after a VisitState returned -/
   | setRefs
+  /-- only SetLockingState has run (SetThreadPool is the next statement of baseRuntime.Eval) -/
+  | setLockingState
+  /-- StopThreads: every waiting thread is told to end (command Kill) and released -/
+  | stopThreads
   /-- RecordSource -/
   | source (src : Str)
   /-- the thread ran (any number of VisitState / VisitStepInState / VisitStepOutState) and is
@@ -623,16 +633,15 @@ inductive Event where
   | finish (tid : Nat)
   /-- a running thread assigned variables of the global scope -/
   | setGlobals (names : List Str)
+  /-- an `inject` that was still evaluating (reply `evaluating`) gets its result after all: the
+      second phase of InjectValue runs (write lock, set the value if the thread still waits) -/
+  | injectCompletes (pathOk : Bool) (tid : Nat) (varName : Str)
   deriving DecidableEq, Repr
 
-/-- is the thread waiting in `waitForContinue`? `running = false` says so, except that
-    VisitStepOutState marks a thread whose error is ALREADY recorded as not running without
-    waiting (debug.go: `is.running = false` … `if is.err == nil { …wait… }`): such a thread runs
-    on and RecordThreadFinished removes it. So a not-running thread with an error recorded may
-    move; every other not-running thread is parked. -/
+/-- is the thread waiting in `waitForContinue`? (`running = false` is only set right before the wait) -/
 def isSuspended (s : DbgState) (tid : Nat) : Bool :=
   match s.istates.lookup tid with
-  | some is => !is.running && !is.hasErr
+  | some is => !is.running
   | none => false
 
 def frames (depth : Nat) : List Frame := List.replicate depth { nonNil := true, hasToken := true }
@@ -644,6 +653,9 @@ def applyEvent (s : DbgState) : Event → Option DbgState
     else some { s with stacks := put tid [] s.stacks }
   | .setRefs => some { s with ownersSet := true, mutexLogSet := true, threadPoolSet := true }
   | .setGlobals names => some { s with globals := names }
+  | .setLockingState => some { s with ownersSet := true, mutexLogSet := true }
+  | .stopThreads =>
+    some { s with istates := s.istates.map fun p => if p.2.running then p else (p.1, { p.2 with running := true, cmd := .kill }) }
   | .source src => some { s with sources := if s.sources.contains src then s.sources else src :: s.sources }
   | .advance tid depth w =>
     if (s.stacks.lookup tid).isNone || isSuspended s tid then none
@@ -661,11 +673,13 @@ def applyEvent (s : DbgState) : Event → Option DbgState
           istates := put tid { running := false, cmd := .stop, hasNode := true, hasVs := true,
                                hasErr := hasErr, errDataJson := errDataJson, stepOutStack := none, atGlobal := atGlobal,
                                locals := locals } s.istates }
+  | .injectCompletes pathOk tid varName =>
+    match injectSecond { eval := fun _ => .ok, setPathOk := fun _ _ => pathOk } tid varName s with
+    | .ok _ s' => some s'
+    | _ => none
   | .finish tid =>
     if (s.stacks.lookup tid).isNone || isSuspended s tid then none
-    else match s.istates.lookup tid with
-      | some _ => some s    -- interrogated and running: RecordThreadFinished keeps the entries
-      | none => some { s with stacks := del tid s.stacks }
+    else some { s with stacks := del tid s.stacks, istates := del tid s.istates }  -- all tables of the thread
 
 
 /-! ## VisitState: what an evaluating thread does with the debugger's lock
